@@ -219,11 +219,11 @@ def c08(run, replay=None):
 def c09(run, replay=None):
     recs, nus = sweep(run)
     classify(recs)
-    rep = 8 if run.tier == "quick" else 32
+    rep = 8 if run.tier == "quick" else 16
     famrecs = [r for r in recs if r.get("family")]       # the targeted families are re-parsed in full, never sampled away
     cand = [r for r in recs if not r.get("family") and ("ok" in r["outs"][0] or (r["ref"] and r["ref"]["matches"]))]
     rest = [r for r in recs if not r.get("family") and not ("ok" in r["outs"][0] or (r["ref"] and r["ref"]["matches"]))]
-    na, nr = (12000, 3000) if run.tier == "quick" else (200000, 50000)
+    na, nr = (12000, 3000) if run.tier == "quick" else (80000, 20000)       # (200 000 x 32 repeats needed more than 90 minutes)
     if len(cand) > na:
         cand = run.rng.sample(cand, na)
     if len(rest) > nr:
